@@ -56,21 +56,24 @@ fn valueops(tier: &str, seed: u64) {
         let mut vals: Vec<BigInt> = vec![BigInt::zero(), BigInt::one(), BigInt::from(2), BigInt::from(3), &p / 2 - 1, &p / 2, &p / 2 + 1, &p - 2, &p - 1];
         for k in [8usize, 63, 64, 65, 252, 253, 254, 255] { for d in [-1i32, 0, 1] { let v = pow2(k) + d; if v < p { vals.push(v); } } }
         for k in [nb - 1, nb, nb + 1, 300, 65536, 1 << 20] { vals.push(BigInt::from(k)); }
+        // literals at and beyond the field size: Circom reads a literal as the field element it is congruent to
+        vals.push(p.clone()); vals.push(&p + 1); vals.push(&p * 2 - 1);
         let nrand = if tier == "thorough" { 40 } else { 4 };
         for _ in 0..nrand { let mut r = BigInt::zero(); for _ in 0..5 { x ^= x << 13; x ^= x >> 7; x ^= x << 17; r = r * BigInt::from(u64::MAX) + BigInt::from(x); } vals.push(r % &p); }
         vals.sort(); vals.dedup();
         for a in &vals { for b in &vals { for (op, f) in INFIX.iter() {
             // shift counts between 2^20 and usize::MAX are left to the resource probes of replay_field
-            if (*f == "shift_l" || *f == "shift_r") && k_eff(b, &p) > BigInt::from(1 << 20) && k_eff(b, &p) <= BigInt::from(u64::MAX) { continue; }
+            if (*f == "shift_l" || *f == "shift_r") && ((k_eff(b, &p) > BigInt::from(1 << 20) && k_eff(b, &p) <= BigInt::from(u64::MAX)) || (k_eff(&emod(b, &p), &p) > BigInt::from(1 << 20) && k_eff(&emod(b, &p), &p) <= BigInt::from(u64::MAX))) { continue; }
             evals += 1;
             let got = eval_infix(*op, a, b, &curve);
+            let (ca, cb) = (emod(a, &p), emod(b, &p));   // the field elements the literals denote
             let what: Option<String> = match (&got, *f) {
                 (Err(()), _) => Some("panicked".into()),
                 (Ok(None), _) => None, // no claim is always sound
                 (Ok(Some(_)), "-") => Some("a value was produced for a boolean connective applied to field elements".into()),
                 (Ok(Some(ValueReduction::FieldElement { value })), f) => {
                     nontrivial += 1;
-                    match expected(f, a, b, &p) {
+                    match expected(f, &ca, &cb, &p) {
                         Some(exp) if ["lesser_eq", "greater_eq", "lesser", "greater", "eq", "not_eq"].contains(&f) => Some(format!("a comparison produced the field element {} (allowed: a boolean {:?})", value, exp)),
                         Some(exp) => if exp.contains(&Out::Val(value.clone())) { None } else { Some(format!("claims the constant {}, Circom's semantics gives {:?}", value, exp)) },
                         None => None,
@@ -78,7 +81,7 @@ fn valueops(tier: &str, seed: u64) {
                 }
                 (Ok(Some(ValueReduction::Boolean { value })), f) => {
                     nontrivial += 1;
-                    match expected(f, a, b, &p) {
+                    match expected(f, &ca, &cb, &p) {
                         Some(exp) if ["lesser_eq", "greater_eq", "lesser", "greater", "eq", "not_eq"].contains(&f) =>
                             if exp.contains(&Out::Val(b2i(*value))) { None } else { Some(format!("claims the condition is {}, Circom's semantics gives {:?}", value, exp)) },
                         _ => Some(format!("a boolean {} was produced for a field operation", value)),
@@ -99,7 +102,7 @@ fn valueops(tier: &str, seed: u64) {
                 (Err(()), _) => Some("panicked".to_string()),
                 (Ok(None), _) => None,
                 (Ok(Some(_)), "-") => Some("a value was produced for `!` applied to a field element".into()),
-                (Ok(Some(ValueReduction::FieldElement { value })), f) => { nontrivial += 1; match expected(f, a, &BigInt::zero(), &p) { Some(exp) if !exp.contains(&Out::Val(value.clone())) => Some(format!("claims {}, Circom gives {:?}", value, exp)), _ => None } }
+                (Ok(Some(ValueReduction::FieldElement { value })), f) => { nontrivial += 1; match expected(f, &emod(a, &p), &BigInt::zero(), &p) { Some(exp) if !exp.contains(&Out::Val(value.clone())) => Some(format!("claims {}, Circom gives {:?}", value, exp)), _ => None } }
                 (Ok(Some(ValueReduction::Boolean { value })), _) => Some(format!("a boolean {} for a field operation", value)),
             };
             if let Some(w) = what { if viol.len() < 20 {
